@@ -176,7 +176,8 @@ def replay(chk, h):
     if arrays not in ('2d', 'ragged') and h['stream'] and not h['dis1']:
       # a numeric aggregate state (running maximum of 3 - b: 0 and negative values occur), per slice
       try:
-        pm = transform.TreeTransform.new().aggregate(fn=lib.RunningMax(), input_keys='b', output_keys='o1')
+        pm = (transform.TreeTransform.new().aggregate(fn=lib.RunningMax(), input_keys='b', output_keys='o1')
+              .add_aggregate(fn=lib.NestedCount(), input_keys='b', output_keys='n1'))
         for sl in sorted(h['slicers']):
           if sl in ('a', 'a_in1'):
             pm = pm.add_slice('a', slice_fn=_key_a) if (arrays and sl == 'a') else (pm.add_slice('a') if sl == 'a' else pm.add_slice(dict(a=1)))
@@ -190,13 +191,21 @@ def replay(chk, h):
         continue
       rows_all = [r for bt in h['stream'] for r in bt]
       want_max = max(3 - r['b'] for r in rows_all)
-      got_max = [v for k, v in resm.items() if not isinstance(k, transform.MetricKey)]
+      got_max = [v for k, v in resm.items() if k == 'o1']
+      # the row count kept in a nested container updated in place: one container per state
+      n_bad = [(k, v) for k, v in resm.items()
+               if (k == 'n1' and v != len(rows_all)) or (isinstance(k, transform.MetricKey) and k.metrics == 'n1'
+                                                         and v != sum(1 for r in rows_all if r['a'] == int(_item(k.slice.values[0]))))]
+      if n_bad:
+        chk.violation('numeric-state:nested-container-count', f'[{cfg}] row counts {n_bad} (all rows: {len(rows_all)}; per a: '
+                      f'{ {a: sum(1 for r in rows_all if r["a"] == a) for a in sorted({r["a"] for r in rows_all})} })', ctx)
+        continue
       if not got_max or float(got_max[0]) != float(want_max):
         chk.violation(f'numeric-state:unsliced', f'[{cfg}] running maximum of 3 - b over all rows = {got_max}, brute force {want_max}', ctx)
         continue
       bad_slice = None
       for k, v in resm.items():
-        if isinstance(k, transform.MetricKey):
+        if isinstance(k, transform.MetricKey) and k.metrics == 'o1':
           val = int(_item(k.slice.values[0]))
           w = max(3 - r['b'] for r in rows_all if r['a'] == val)
           if float(v) != float(w):
